@@ -155,3 +155,31 @@ Check C11_xz_trailing_rejected :
   s_limit (i_src w) = None ->
   s_rest (i_src w') = [] /\ s_pos (i_src w') = s_pos (i_src w) + nlen (s_rest (i_src w)).
 Print Assumptions C11_xz_trailing_rejected.
+
+From LZ Require Import Model.Lzma2 Format.Lzma2Fmt Proofs.Lzma2ExactWf Proofs.Lzma2Exact.
+
+(* LZMA2: after success the reader is positioned just after the end control byte and the trailing bytes are untouched, for every reader fragmentation   [proved as lzma2_decode_exact in Proofs/Lzma2Exact.v] *)
+Theorem C11_lzma2_leaves_reader_after_end_byte :
+  forall (cs : list chunk) (bytes out trail : list N) (frag : N -> N) (k : snk) (fuel : positive),
+  ser2_gen false cs = Some (bytes, out) ->
+  Lzma2ExactChunk.wf_seq cs ->
+  k_wfail k = None ->
+  k_ffail k = false ->
+  fuel_ok fuel cs ->
+  exists w' : io,
+    lzma2_decompress_top fuel {| i_src := src_of (bytes ++ trail) frag None; i_snk := k |} = (Done tt, w') /\
+    snk_bytes (i_snk w') = snk_bytes k ++ out /\
+    k_flushes (i_snk w') = k_flushes k + 1 /\ s_pos (i_src w') = nlen bytes /\ s_rest (i_src w') = trail.
+Proof. exact (@lzma2_decode_exact). Qed.
+Check C11_lzma2_leaves_reader_after_end_byte :
+  forall (cs : list chunk) (bytes out trail : list N) (frag : N -> N) (k : snk) (fuel : positive),
+  ser2_gen false cs = Some (bytes, out) ->
+  Lzma2ExactChunk.wf_seq cs ->
+  k_wfail k = None ->
+  k_ffail k = false ->
+  fuel_ok fuel cs ->
+  exists w' : io,
+    lzma2_decompress_top fuel {| i_src := src_of (bytes ++ trail) frag None; i_snk := k |} = (Done tt, w') /\
+    snk_bytes (i_snk w') = snk_bytes k ++ out /\
+    k_flushes (i_snk w') = k_flushes k + 1 /\ s_pos (i_src w') = nlen bytes /\ s_rest (i_src w') = trail.
+Print Assumptions C11_lzma2_leaves_reader_after_end_byte.
